@@ -547,6 +547,8 @@ func queryKindsOf(model *tModel, m protoreflect.Message) []string {
 
 func runC03(r *rt.Runner) {
 	st := &c03State{covered: map[string]int{}}
+	// exactness of the canonical document for durations (no entry in the type model; see c01.go)
+	r.Do("duration", func(c *rt.C) { durationRoundTrips(c, "C03") })
 	for cur := 0; cur < 14; cur++ {
 		r.Do(fmt.Sprintf("sink/sys/%d", cur), func(c *rt.C) {
 			env := sinkEnv()
